@@ -48,7 +48,19 @@ MARK = "VMARK"
 def payloads(sentinel: str, tag: str):
     s = sentinel
     m = MARK + tag
+    # payloads that need no quote, dot or comma: the code is spelled with chr() sums, and the few names it needs can be
+    # written with compatibility characters that Python's identifier normalisation (NFKC) maps to the builtin names
+    code = f"open('{s}','w').close()"
+    chr_sum = "+".join(f"chr({ord(c)})" for c in code)
+    fullwidth = lambda t: "".join(chr(ord(c) - 0x61 + 0xFF41) if "a" <= c <= "z" else c for c in t)
+    mathbold = lambda t: "".join(chr(ord(c) - 0x61 + 0x1D41A) if "a" <= c <= "z" else c for c in t)
     return {
+        "exec-chr-sum": f"exec({chr_sum})",
+        "fullwidth-exec-chr-sum": fullwidth(f"exec({chr_sum})"),
+        "fullwidth-eval-chr-sum": fullwidth(f"eval({chr_sum})"),
+        "mathbold-exec-chr-sum": mathbold(f"exec({chr_sum})"),
+        "fullwidth-digits-too": fullwidth(f"exec({chr_sum})").replace("1", "\uff11").replace("0", "\uff10"),
+        "mixed-width-exec-chr-sum": "\uff45xec(" + fullwidth(chr_sum) + ")",
         "os.system": f"__import__('os').system('touch {s} #{m}')",
         "open-write": f"open('{s}','w').write('{m}')",
         "attr-chain": f"().__class__.__base__.__subclasses__().__len__().__class__('{m}').__len__()",
@@ -203,7 +215,7 @@ def execute(case, scratch):
     for ev in events:
         blob = json.dumps(ev)
         if ev["event"] in ("compile", "exec"):
-            if marker in blob or "touch" in blob or "__import__" in blob:
+            if marker in blob or "touch" in blob or "__import__" in blob or os.path.basename(sentinel) in blob or "chr(" in blob or "\uff43\uff48\uff52" in blob:
                 site = (ev.get("stack") or ["?"])[-1]
                 out.append((f"EVAL:{site}", f"file text reached the interpreter: {ev['event']} of {ev.get('source', ev.get('consts'))!r} at {site}"))
         else:
@@ -252,7 +264,7 @@ def l2_session(ctx, case):
         blob = json.dumps(ev)
         site = (ev.get("stack") or ["?"])[-1]
         if ev["event"] in ("compile", "exec"):
-            if marker in blob or "touch" in blob or "__import__" in blob:
+            if marker in blob or "touch" in blob or "__import__" in blob or os.path.basename(sentinel) in blob or "chr(" in blob or "\uff43\uff48\uff52" in blob:
                 discs.append(Disc(f"EVAL:{site}", f"L2: file text reached the interpreter: {ev.get('source', ev.get('consts'))!r} at {site}"))
         else:
             discs.append(Disc(f"EFFECT:{ev['event']}:{site}", f"L2: {ev['event']} {ev.get('args', ev.get('path'))!r} at {site}"))
